@@ -33,12 +33,20 @@ def q_guard_of(body, ev, callee):
             site = c[4]
     for g in body.guards():
         cond = g['cond']
-        if cond[0] != 'discr' or not g['fail']:
+        if cond[0] != 'discr':
+            continue
+        if not (cond[1][0] == 'call' and cond[1][1] == 'core::ops::try_trait::Try::branch'):
             continue
         for c in strip_result(cond[1]):
             if call_is(c, callee) and c[4] == site:
-                if g['pass']:
-                    return g
+                names = variant_names(body, g)
+                cont = [(v, tb) for v, tb in g['term']['vals'] if names.get(v) == 'Continue']
+                brk = [(v, tb) for v, tb in g['term']['vals'] if names.get(v) == 'Break']
+                if cont:
+                    g2 = dict(g)
+                    g2['pass'] = cont
+                    g2['fail'] = brk
+                    return g2
     return None
 
 
